@@ -8,7 +8,12 @@ CLAIMED = {
  "C04": ("DESIGN.md §4 C04",
    "Structural necessary conditions decided from the source on every run: the reader never lets the measured value decide the unit (SSA guard/provenance rule on every store to Value.Unit), the fast-path and general tidy tables agree with each other and with the documented table (constants evaluated in the checker against a model of the unit grammar), rewriting and Binary classification only in numerator position with one separator set in both tokenizer loops, metadata keys built from tidied units, and the .unit filter judged against both units. A violated rule yields an input on which C04 fails.",
    "Does not decide the floating-point arithmetic of value*factor, the sync.Map cache's behaviour, or the tokenizer's handling of arbitrary Unicode beyond its separator set. Trusted: go/types, go/ssa, the checker's own model of the unit grammar.",
-   "SSA guard/provenance rules + constant-table conformance (go/ssa, go/types, go/constant)"),
+   "SSA guard/provenance rules + constant-table conformance + memo-key dataflow (go/ssa, go/types, go/constant)"),
+
+ "C01": ("DESIGN.md §4 C01",
+   "Writer-side structural conditions of the round trip, decided on every run: the per-key step of the configuration diff is extracted from the SSA as a complete decision table over (key present, value equal, model entry is file, result entry is file) and compared with the table required for a reader of the output to end up with exactly the result's file configuration (deletion on file->absent and file->internal, assignment on new/changed/internal->file, never an assignment for internal keys, model re-established); the diff trigger covers every kind of difference; a step that removes a key revisits its slot; measurements are printed as one (value,unit) family, the written pair exactly when one was recorded; floats use shortest round-trip verbs; unit metadata lines carry the unit as written.",
+   "Does not decide that parsing arbitrary text and printing it is the identity, the float parser (C03), blank-line placement, or the equal-counts arithmetic argument the trigger relies on. Trusted: go/types, go/ssa, the table in DESIGN Appendix A1.",
+   "decision-table extraction by abstract interpretation of SSA over a finite predicate domain + format/verb site rules"),
 }
 
 NOT_YET = "check not built yet in this round (planned in DESIGN.md); not claimed until its rules run clean on the unchanged tree"
